@@ -147,6 +147,17 @@ var HeaderVals = []string{"1", "2", "1", "2", "1, 2", "gzip"}
 // PortedHosts: hosts with a port and bracketed IPv6 literals (C13 pingbacks).
 var PortedHosts = []string{"example.com:8080", "[::1]", "[::1]:8080", "a.example.com:80"}
 
+// OddQueryPairs decode to values with a byte that is not valid UTF-8, control
+// bytes, DEL, quote and backslash, U+2028, an astral character, NUL.
+var OddQueryPairs = []string{"q=%FF", "p=a%07b", "q=%7F", "p=%22%5C", "q=%E2%80%A8", "p=%F0%9F%98%80", "q=%C3%28", "p=%00", "q=%0B%0C"}
+
+// OddHeaderValues: the same kinds of content as header values; the first
+// WireSafeOddHeaderValues of them are legal field values on the wire (no
+// control bytes).
+var OddHeaderValues = []string{"caf\xe9", "\"quoted\\\"", "\u2028line", "\U0001F600", "\xff\xfe", "a\x07b", "\x7f", "x\x0by"}
+
+const WireSafeOddHeaderValues = 5
+
 // BadQueryPairs: pairs url.ParseQuery rejects (bad escape, stray percent sign,
 // semicolon separator) while it keeps decoding the pairs around them.
 var BadQueryPairs = []string{"p=%zz", "x=50%", "q=1;p=2", "z=%"}
